@@ -1109,6 +1109,43 @@ example : (rrunVar (fun _ => .upstream) (RState.init (fun _ => .upstream))
     (runVar (fun _ => .upstream) State.init [(0, true, .req true), (0, true, .req true)]).map (fun x => x.2.2.length) = [2, 2] := by
   decide +kernel
 
+private theorem rstep_host_blind (auth : Bool) (m : Mode) (tn : Bool) (s : CState) (e1 e2 : REv)
+    (hm : m.isHttpProxy = false) (he : evOf e1 = evOf e2) :
+    rstep auth m tn s e1 = rstep auth m tn s e2 := by
+  cases e1 <;> cases e2 <;> simp [evOf] at he
+  · rename_i h1 p1 t1 h2 p2 t2
+    exact transparent_dest_ignores_host auth m tn s h1 p1 h2 p2 t1 t2 (by simp [hm])
+  · unfold rstep
+    cases hp : s.phase <;> simp [hm]
+  · rfl
+
+/-- **Host vs destination over whole histories**: when every client connection is in reverse, transparent or SOCKS5
+    mode, two histories that differ only in the hosts, ports and schemes their requests (and misplaced CONNECTs) NAME
+    produce exactly the same connections, writes and credentials — the destination is the mode's, never the request's. -/
+theorem transparent_histories_ignore_hosts (modes : Nat → Mode) (hm : ∀ c, (modes c).isHttpProxy = false) :
+    ∀ (es1 es2 : List (Nat × Bool × REv)) (ρ : RState),
+      es1.map (fun x => (x.1, x.2.1, evOf x.2.2)) = es2.map (fun x => (x.1, x.2.1, evOf x.2.2)) →
+      rrunVar modes ρ es1 = rrunVar modes ρ es2 := by
+  intro es1
+  induction es1 with
+  | nil =>
+    intro es2 ρ h
+    cases es2 with
+    | nil => rfl
+    | cons y ys => simp at h
+  | cons x xs ih =>
+    intro es2 ρ h
+    cases es2 with
+    | nil => simp at h
+    | cons y ys =>
+      obtain ⟨c1, a1, e1⟩ := x
+      obtain ⟨c2, a2, e2⟩ := y
+      simp only [List.map_cons, List.cons.injEq, Prod.mk.injEq] at h
+      obtain ⟨⟨rfl, rfl, he⟩, hrest⟩ := h
+      have hstep := rstep_host_blind a1 (modes c1) (ρ.tunneled.contains c1) (ρ.conns c1) e1 e2 (hm c1) he
+      simp only [rrunVar, hstep]
+      rw [ih ys _ hrest]
+
 end Refinement
 
 /-! ## Round 4: the credential value (`parse_upstream_auth`) -/
